@@ -41,6 +41,7 @@ def run(ctx):
         table = c06.k1(ctx, cfg, fs)
         ctx.guard(c06.k3, ctx, cfg, fs, table)
         ctx.guard(c06.k5, ctx, cfg, fs)
+        ctx.guard(c06.len_threaded, ctx, cfg, fs)
         ctx.guard(parsecon, ctx, cfg, fs)
         ctx.guard(c12.walker_rules, ctx, cfg, fs, 'R.registry', {'collect_shorts': c12.WALKERS['collect_shorts']})
         ctx.guard(c08.keep_only, ctx, lambda: c02.lossless(ctx, cfg, fs), lambda o: 'parse_os_str' in o.key or o.key.startswith('value-path'), 'L.lossless')
